@@ -27,3 +27,4 @@ PROP = {
                                  "second and third derivatives exactly at a knot are not compared (they are discontinuous there)"],
 }
 PROP["level_text"] += ' Histories include self-assignment through a reference and copies whose source was destroyed and its memory reused.'
+PROP["level_text"] += ' Extremum queries are repeated on the range of the previous query across Multiply and copies.'
